@@ -8,6 +8,7 @@ package main
 
 import (
 	"fmt"
+	"strings"
 	"testing"
 
 	"pgregory.net/rapid"
@@ -52,6 +53,40 @@ func TestC13(t *testing.T) {
 		}
 		svcs = append(svcs, s)
 	}
+	// saved inputs: "keep" selects the instance (false: keep-next-hop-route off, true: on);
+	// routes_out is the Route list that must come out, entry by entry
+	V.Regress(t, func(c regressCase) string {
+		if c.S("kind") != "relay" {
+			return "skip: kind " + c.S("kind")
+		}
+		s := svcs[0]
+		if c.Bool("keep") {
+			s = svcs[1]
+		}
+		_, got, fail := s.regressRelay(c)
+		if fail != "" || len(got) == 0 {
+			return fail
+		}
+		g := stdIngress{Entry: c.I("entry"), TCP: c.Bool("tcp"), UA: c.I("ua")}
+		var want []string
+		for _, e := range c.Strings("routes_out") {
+			want = append(want, s.regressExpand(e, g))
+		}
+		out := got[0].msg.Entries(hRoute)
+		if len(out) != len(want) {
+			return fmt.Sprintf("relayed Route entries %q, want %q", out, want)
+		}
+		for i := range want {
+			if out[i] != want[i] {
+				return fmt.Sprintf("Route entry %d changed or moved:\nwant: %q\n got: %q", i, want[i], out[i])
+			}
+		}
+		if at := c.S("arrives_at"); at != "" && got[0].where() != "" && !strings.Contains(got[0].where(), s.regressExpand(at, g)) {
+			return fmt.Sprintf("must be sent to %s; it arrived at %s", s.regressExpand(at, g), got[0].where())
+		}
+		return ""
+	})
+
 	rcheck(t, "routes", V.N(3000, 20000), func(rt *rapid.T) {
 		vi := rapid.IntRange(0, len(svcs)-1).Draw(rt, "instance")
 		s := svcs[vi]
